@@ -336,47 +336,153 @@ impl<K: KeyLike> Sut<K> {
                 cb = Some(ZST_CB);
                 SutC::LruCbD(RawLRU::with_on_evict_cb(cfg.a, RecCbZ).map_err(|e| e.to_string())?)
             }
+            // Builders: four call sequences per kind (entry point, order of the setters, values
+            // set twice). Every sequence ends in the same configuration, so all oracles apply.
             Kind::Seg => SutC::Seg(
-                SegmentedCacheBuilder::new(cfg.a, cfg.b)
-                    .set_probationary_hasher(h(0))
-                    .set_protected_hasher(h(1))
-                    .finalize()
-                    .map_err(|e| e.to_string())?,
+                match cfg.perm % 4 {
+                    0 => SegmentedCacheBuilder::new(cfg.a, cfg.b).set_probationary_hasher(h(0)).set_protected_hasher(h(1)).finalize(),
+                    1 => SegmentedCacheBuilder::default()
+                        .set_protected_hasher(h(1))
+                        .set_protected_size(cfg.b)
+                        .set_probationary_hasher(h(0))
+                        .set_probationary_size(cfg.a)
+                        .finalize(),
+                    2 => SegmentedCacheBuilder::new(cfg.b + 5, cfg.a + 9)
+                        .set_probationary_size(cfg.a)
+                        .set_protected_hasher(h(1))
+                        .set_protected_size(cfg.b)
+                        .set_probationary_hasher(h(0))
+                        .finalize(),
+                    _ => SegmentedCache::from_builder(
+                        SegmentedCache::<K, TVal>::builder(cfg.a, cfg.b + 3).set_probationary_hasher(h(0)).set_protected_hasher(h(1)).set_protected_size(cfg.b),
+                    ),
+                }
+                .map_err(|e| e.to_string())?,
             ),
             Kind::TwoQ => SutC::TwoQ(
-                TwoQueueCacheBuilder::new(cfg.a)
-                    .set_recent_ratio(cfg.rr)
-                    .set_ghost_ratio(cfg.gr)
-                    .set_recent_hasher(h(0))
-                    .set_frequent_hasher(h(1))
-                    .set_ghost_hasher(h(2))
-                    .finalize()
-                    .map_err(|e| e.to_string())?,
+                match cfg.perm % 4 {
+                    0 => TwoQueueCacheBuilder::new(cfg.a)
+                        .set_recent_ratio(cfg.rr)
+                        .set_ghost_ratio(cfg.gr)
+                        .set_recent_hasher(h(0))
+                        .set_frequent_hasher(h(1))
+                        .set_ghost_hasher(h(2))
+                        .finalize(),
+                    1 => TwoQueueCacheBuilder::default()
+                        .set_ghost_hasher(h(2))
+                        .set_size(cfg.a)
+                        .set_frequent_hasher(h(1))
+                        .set_ghost_ratio(cfg.gr)
+                        .set_recent_hasher(h(0))
+                        .set_recent_ratio(cfg.rr)
+                        .finalize(),
+                    2 => TwoQueueCacheBuilder::new(cfg.a + 11)
+                        .set_recent_ratio(cfg.rr)
+                        .set_recent_hasher(h(0))
+                        .set_ghost_ratio(cfg.gr)
+                        .set_frequent_hasher(h(1))
+                        .set_size(cfg.a)
+                        .set_ghost_hasher(h(2))
+                        .finalize(),
+                    _ => TwoQueueCache::from_builder(
+                        TwoQueueCache::<K, TVal>::builder(cfg.a)
+                            .set_ghost_ratio(0.875)
+                            .set_recent_ratio(0.125)
+                            .set_frequent_hasher(h(1))
+                            .set_ghost_hasher(h(2))
+                            .set_recent_hasher(h(0))
+                            .set_ghost_ratio(cfg.gr)
+                            .set_recent_ratio(cfg.rr),
+                    ),
+                }
+                .map_err(|e| e.to_string())?,
             ),
             Kind::Arc => SutC::Arc(
-                AdaptiveCacheBuilder::new(cfg.a)
-                    .set_recent_hasher(h(0))
-                    .set_frequent_hasher(h(1))
-                    .set_recent_evict_hasher(h(2))
-                    .set_frequent_evict_hasher(h(3))
-                    .finalize()
-                    .map_err(|e| e.to_string())?,
+                match cfg.perm % 4 {
+                    0 => AdaptiveCacheBuilder::new(cfg.a)
+                        .set_recent_hasher(h(0))
+                        .set_frequent_hasher(h(1))
+                        .set_recent_evict_hasher(h(2))
+                        .set_frequent_evict_hasher(h(3))
+                        .finalize(),
+                    1 => AdaptiveCacheBuilder::default()
+                        .set_frequent_evict_hasher(h(3))
+                        .set_size(cfg.a)
+                        .set_recent_evict_hasher(h(2))
+                        .set_frequent_hasher(h(1))
+                        .set_recent_hasher(h(0))
+                        .finalize(),
+                    2 => AdaptiveCacheBuilder::new(cfg.a + 13)
+                        .set_frequent_hasher(h(1))
+                        .set_recent_hasher(h(0))
+                        .set_frequent_evict_hasher(h(3))
+                        .set_recent_evict_hasher(h(2))
+                        .set_size(cfg.a)
+                        .finalize(),
+                    _ => AdaptiveCache::from_builder(
+                        AdaptiveCache::<K, TVal>::builder(cfg.a + 1)
+                            .set_recent_evict_hasher(h(2))
+                            .set_size(cfg.a)
+                            .set_frequent_evict_hasher(h(3))
+                            .set_recent_hasher(h(0))
+                            .set_frequent_hasher(h(1)),
+                    ),
+                }
+                .map_err(|e| e.to_string())?,
             ),
             Kind::Wtl => {
                 #[cfg(feature = "std")]
                 caches::lfu::verif_pin_sketch_seed(cfg.sketch_seed);
-                let r = WTinyLFUCacheBuilder::<K, KHS<K>, HS, HS, HS>::with_hashers(
-                    mk_khs::<K>(cfg.kh),
-                    h(2),
-                    h(1),
-                    h(0),
-                )
-                .set_window_cache_size(cfg.a)
-                .set_protected_cache_size(cfg.b)
-                .set_probationary_cache_size(cfg.c)
-                .set_samples(cfg.samples)
-                .set_false_positive_ratio(cfg.fp)
-                .finalize::<TVal>();
+                type B<K> = WTinyLFUCacheBuilder<K, KHS<K>, HS, HS, HS>;
+                // a key hasher that is *not* the configured one (must have been replaced in the end)
+                let other_kh = || mk_khs::<K>(if cfg.kh == KhSpec::Const { KhSpec::Ident } else { KhSpec::Const });
+                let r = match cfg.perm % 4 {
+                    0 => B::<K>::with_hashers(mk_khs::<K>(cfg.kh), h(2), h(1), h(0))
+                        .set_window_cache_size(cfg.a)
+                        .set_protected_cache_size(cfg.b)
+                        .set_probationary_cache_size(cfg.c)
+                        .set_samples(cfg.samples)
+                        .set_false_positive_ratio(cfg.fp)
+                        .finalize::<TVal>(),
+                    1 => B::<K>::with_hashers(other_kh(), h(0), h(0), h(1))
+                        .set_false_positive_ratio(cfg.fp)
+                        .set_samples(cfg.samples)
+                        .set_probationary_cache_size(cfg.c)
+                        .set_protected_hasher(h(2))
+                        .set_protected_cache_size(cfg.b)
+                        .set_key_hasher(mk_khs::<K>(cfg.kh))
+                        .set_window_cache_size(cfg.a)
+                        .set_probationary_hasher(h(1))
+                        .set_window_hasher(h(0))
+                        .finalize::<TVal>(),
+                    2 => B::<K>::with_hashers(other_kh(), h(2), h(1), h(0))
+                        .set_window_cache_size(cfg.c + 3)
+                        .set_protected_cache_size(cfg.a + 5)
+                        .set_probationary_cache_size(cfg.b + 7)
+                        .set_samples(cfg.samples + 11)
+                        .set_false_positive_ratio(0.5)
+                        .set_window_hasher(h(0))
+                        .set_window_cache_size(cfg.a)
+                        .set_probationary_hasher(h(1))
+                        .set_probationary_cache_size(cfg.c)
+                        .set_key_hasher(mk_khs::<K>(cfg.kh))
+                        .set_samples(cfg.samples)
+                        .set_protected_hasher(h(2))
+                        .set_protected_cache_size(cfg.b)
+                        .set_false_positive_ratio(cfg.fp)
+                        .finalize::<TVal>(),
+                    _ => WTinyLFUCache::from_builder(
+                        B::<K>::with_hashers(mk_khs::<K>(cfg.kh), h(2), h(1), h(0))
+                            .set_samples(cfg.samples)
+                            .set_probationary_hasher(h(1))
+                            .set_protected_cache_size(cfg.b)
+                            .set_window_hasher(h(0))
+                            .set_probationary_cache_size(cfg.c)
+                            .set_protected_hasher(h(2))
+                            .set_false_positive_ratio(cfg.fp)
+                            .set_window_cache_size(cfg.a),
+                    ),
+                };
                 #[cfg(feature = "std")]
                 caches::lfu::verif_pin_sketch_seed(None);
                 SutC::Wtl(r.map_err(|e| e.to_string())?)
